@@ -7,7 +7,7 @@ from core import nats, natlists, opt, exc_kind, safe_check
 from props.c02 import bits
 
 PROPS = ('GambitV.Props.C05', 'GambitV.C05')
-TIE = [('GambitV.Tie.Metric', 'GambitV.Tie.Metric'), ('GambitV.Tie.PyChunks', 'GambitV.Tie.Py'), ('GambitV.Tie.PyPropsC05', 'GambitV.Tie.Py'), ('GambitV.Tie.PyBulk', 'GambitV.Tie.Py'), ('GambitV.Tie.PyPairwise', 'GambitV.Tie.Py'), ('GambitV.Tie.PyBindMetric', 'GambitV.Tie.Py')]
+TIE = [('GambitV.Tie.Metric', 'GambitV.Tie.Metric'), ('GambitV.Tie.PyChunks', 'GambitV.Tie.Py'), ('GambitV.Tie.PyPropsC05', 'GambitV.Tie.Py'), ('GambitV.Tie.PyBulk', 'GambitV.Tie.Py'), ('GambitV.Tie.PyPairwise', 'GambitV.Tie.Py'), ('GambitV.Tie.PyBindMetric', 'GambitV.Tie.Py'), ('GambitV.Tie.PySigArrayInit', 'GambitV.Tie.Py')]
 RULE = ('(query signatures, reference signatures, container in {SignatureArray, SignatureArray window of a larger values array (from_arrays), SignatureList, plain list, HDF5Signatures}, dtype, '
         'chunk size in 1..n+2 or None, ref_indices (None / permutation / with repeats / subset / non-decreasing runs with repeats and gaps), caller out-buffer (none / contiguous / '
         'strided view with sentinels), threads 1..16) for jaccarddist_matrix; same for jaccarddist_array and jaccarddist_pairwise '
